@@ -264,5 +264,26 @@ impl InterruptRegister {
 //@ end
 }
 
+pub struct Break;
+pub struct Continue;
+impl Break {
+//@ item crates/lib/src/stdlib/tags/interrupt_tags.rs :: impl Renderable for Break::render_to
+//@ props C10 C05 C02
+//@ sig fn render_to(&self, _writer: &mut Sink, runtime: &dyn Runtime) -> (r: Result<()>)
+//@ spec
+    requires !old(_writer).failed@,
+    ensures r is Ok, final(_writer).log@ == old(_writer).log@, final(_writer).failed@ == old(_writer).failed@,      // [C10:break_writes_nothing]
+//@ end
+}
+impl Continue {
+//@ item crates/lib/src/stdlib/tags/interrupt_tags.rs :: impl Renderable for Continue::render_to
+//@ props C10 C05 C02
+//@ sig fn render_to(&self, _writer: &mut Sink, runtime: &dyn Runtime) -> (r: Result<()>)
+//@ spec
+    requires !old(_writer).failed@,
+    ensures r is Ok, final(_writer).log@ == old(_writer).log@, final(_writer).failed@ == old(_writer).failed@,      // [C10:continue_writes_nothing]
+//@ end
+}
+
 } // verus!
 fn main() {}
